@@ -406,7 +406,7 @@ pub fn run_walk(lts: Arc<Lts>, o: Arc<WalkOpts>) -> Value {
                         let s = &lts.states[si];
                         // (1) edges that leave the state unchanged according to the model, back to back
                         let mut sess: Option<AnySession> = None;
-                        for e in lts.edges[si].iter() {
+                        for e in lts.edges[si].iter().filter(|e| o.ops.is_empty() || o.ops.contains(&e.op.op)) {
                             if e.to == si {
                                 if sess.is_none() {
                                     let mut ns = new_any_session(&lts, &o, s, &mut rng);
@@ -436,7 +436,7 @@ pub fn run_walk(lts: Arc<Lts>, o: Arc<WalkOpts>) -> Value {
                             }
                         }
                         // (2) edges that change the state: fresh construction for each
-                        for e in lts.edges[si].iter() {
+                        for e in lts.edges[si].iter().filter(|e| o.ops.is_empty() || o.ops.contains(&e.op.op)) {
                             if e.to != si {
                                 let mut ns = new_any_session(&lts, &o, s, &mut rng);
                                 stats.builds.fetch_add(1, Ordering::Relaxed);
